@@ -36,6 +36,27 @@ impl Ord for TextSize {
         else { core::cmp::Ordering::Greater }
     }
 }
+impl TextRange {
+    /// `TextRange::cover`, transcribed from text-size-1.1.1/src/range.rs:246-250 (the common shim omits it):
+    ///     let start = cmp::min(self.start(), other.start());
+    ///     let end = cmp::max(self.end(), other.end());
+    ///     TextRange::new(start, end)
+    /// "Find the smallest range that completely contains both ranges." The run-time assertion of `TextRange::new`
+    /// (start <= end) is a PRECONDITION here, as in the common shim; it holds whenever one of the two ranges is ordered.
+    pub fn cover(self, other: TextRange) -> (r: TextRange)
+        requires
+            (if self.start.raw <= other.start.raw { self.start.raw } else { other.start.raw })
+                <= (if self.end.raw >= other.end.raw { self.end.raw } else { other.end.raw }),
+        ensures
+            r.start == (if self.start.raw <= other.start.raw { self.start } else { other.start }),
+            r.end == (if self.end.raw >= other.end.raw { self.end } else { other.end }),
+            r.wf(),
+    {
+        let start = if self.start.raw <= other.start.raw { self.start } else { other.start };
+        let end = if self.end.raw >= other.end.raw { self.end } else { other.end };
+        TextRange::new(start, end)
+    }
+}
 
 // ---------------------------------------------------------------------------------------------
 // shims: lsp_types (emmy_lsp_types 0.1.0), transcribed field by field
@@ -146,6 +167,17 @@ pub proof fn axiom_line_col_monotonic(doc: &LuaDocument, a: TextSize, b: TextSiz
         sp_pos(doc, a).0 < u32::MAX && sp_pos(doc, a).1 < u32::MAX,
         sp_pos(doc, b).0 < u32::MAX && sp_pos(doc, b).1 < u32::MAX,
 { }
+/// ASSUMPTION `line-col-injective` (the one fact about the shimmed positions that is NOT re-proved in unit
+/// c22_lineindex on every run): two char-boundary offsets of the document with the same (line, col) are the same
+/// offset. It is the C22 round trip: c22 `lemma_round_trip` (offset -> (line, col) -> offset returns the offset) with
+/// `lemma_on_line`: if a and b both have position (l, c) then b satisfies c22 `offset_ok(l, c, b)`, so the round trip
+/// from a gives b == a. Needed because document_selection_range compares TEXT ranges before it pushes one, while the
+/// property speaks about the LSP ranges it returns.
+#[verifier::external_body]
+pub proof fn axiom_line_col_injective(doc: &LuaDocument, a: TextSize, b: TextSize)
+    requires sp_doc_ok(doc), sp_in_doc(doc, a), sp_in_doc(doc, b), sp_pos(doc, a) == sp_pos(doc, b),
+    ensures a == b,
+{ }
 
 // ---------------------------------------------------------------------------------------------
 // shims: the rowan syntax tree (emmylua_parser). ASSUMED contracts (rowan's red tree), not proved here.
@@ -189,6 +221,7 @@ pub type LuaStringToken = Syn;
 pub type LuaFuncStat = Syn;
 pub type LuaVarExpr = Syn;
 pub type LuaLocalStat = Syn;
+pub type LuaAssignStat = Syn;
 pub type LuaExpr = Syn;
 
 /// ASSUMPTION (tree/document agreement): an element of the tree parsed from the document's text has an ordered
@@ -487,7 +520,10 @@ impl<'a> DocumentSymbolBuilder<'a> {
 //@@ build_func_stat_symbol::symbol
 //@@ build_doc_region_symbol::region_token
 //@@ build_doc_region_symbol::symbol
-//@@FINDINGS
+// the range of the symbol of one binding of a local / assignment statement (the symbols of the value expression are hung
+// under it): statement slices
+//@@ build_local_stat_symbol::binding_range
+//@@ build_assign_stat_symbol::binding_range
 
 } // verus!
 fn main() {}
